@@ -30,4 +30,5 @@ func Catch(f func()) bool          { panic("engine") }
 func PanicMsg() string             { panic("engine") }
 func Observe(tag string, b []byte) {}
 func AssumeCollisionFree()         {}
+func AllocBudget(bytes int)        {}
 func Note(s string)                {}
